@@ -1,5 +1,5 @@
 """Per-property decision procedures: which MC configurations, which driver scenarios, which diagnostics count."""
-import json, os, re, sys, time, hashlib
+import json, os, re, shutil, sys, time, hashlib
 from . import runner, domains
 from .runner import ToolError, log, ROOT, WORK
 
@@ -21,39 +21,39 @@ MSEL = mcq("MC_MaskSelect")
 #         the evidence) when the hooked harness does not build against /repo's tree -- the public-API scenarios still decide.
 #   mc:   per tier, list of (module, cfg) model-checking runs (read nothing from /repo)
 PROPS = {
-    "C01": dict(scen=[("core", "cells", True), ("core", "lengths", True), ("core", "structured", True), ("core", "discovered", False)], mc=PIPE, invariants="RoundTripInv (MC), RoundTrip (TV)"),
-    "C02": dict(scen=[("core", "cells", True), ("core", "nearblocks", True), ("core", "corrupt", True), ("hooked", "birthday", False), ("hooked", "tables", False)], mc=mc_join(PIPE, LEMMAS),
+    "C01": dict(scen=[("core", "cells", True), ("core", "lengths", True), ("core", "structured", True), ("core", "discovered", False), ("diff", "diffbuild", False)], mc=PIPE, invariants="RoundTripInv (MC), RoundTrip (TV)"),
+    "C02": dict(scen=[("core", "cells", True), ("core", "nearblocks", True), ("core", "corrupt", True), ("hooked", "birthday", False), ("hooked", "tables", False), ("diff", "diffbuild", False)], mc=mc_join(PIPE, LEMMAS),
                 invariants="BlocksValidInv (MC), CodewordCount/RemainderBitsZero/BlockShape/SyndromesZero + Corrupt/Recover (TV), BMLemma"),
-    "C03": dict(scen=[("core", "cells", True), ("hooked", "maskop", False), ("hooked", "tables", False)], mc=mc_join(PIPE, LEMMAS),
+    "C03": dict(scen=[("core", "cells", True), ("hooked", "maskop", False), ("hooked", "tables", False), ("diff", "diffbuild", False)], mc=mc_join(PIPE, LEMMAS),
                 invariants="FunctionPatternsInv (MC), FunctionPatternsExact/NothingOutsideSquare (TV), LayoutLemmas"),
-    "C04": dict(scen=[("core", "formats", True), ("hooked", "tables", False)], mc=mc_join(PIPE, LEMMAS),
+    "C04": dict(scen=[("core", "formats", True), ("hooked", "tables", False), ("diff", "diffbuild", False)], mc=mc_join(PIPE, LEMMAS),
                 invariants="FormatVersionTruthInv (MC), FormatCopiesExact/VersionInfoExact/ReportedFieldsTruth/ReportedModeTruth/ForcedOptionsHonoured (TV), TableLemmas (BCH distances)"),
-    "C05": dict(scen=[("core", "thresholds", True), ("core", "giant", True), ("hooked", "versionget", False)], mc=mc_join(PIPE, LEMMAS),
+    "C05": dict(scen=[("core", "thresholds", True), ("core", "giant", True), ("hooked", "versionget", False), ("diff", "diffbuild", False)], mc=mc_join(PIPE, LEMMAS),
                 invariants="MinimalVersionInv, OutcomeTotal (MC), MinimalVersion/ExpectedOutcome (TV), EncodeLemmas (monotonicity)"),
-    "C06": dict(scen=[("core", "cells", True), ("core", "lengths", True), ("core", "structured", True), ("core", "discovered", False), ("hooked", "encode", False), ("hooked", "tables", False)], mc=PIPE,
+    "C06": dict(scen=[("core", "cells", True), ("core", "lengths", True), ("core", "structured", True), ("core", "discovered", False), ("hooked", "encode", False), ("hooked", "tables", False), ("diff", "diffbuild", False)], mc=PIPE,
                 invariants="DataCodewordsISOInv, StagedEqualsClosedForm (MC), DataCodewordsISO (TV)"),
-    "C07": dict(scen=[("core", "cells", True), ("core", "nearblocks", True), ("hooked", "birthday", False), ("hooked", "rs", False)], mc=mc_join(PIPE, LEMMAS),
+    "C07": dict(scen=[("core", "cells", True), ("core", "nearblocks", True), ("hooked", "birthday", False), ("hooked", "rs", False), ("diff", "diffbuild", False)], mc=mc_join(PIPE, LEMMAS),
                 invariants="ECIsRemainderInv (MC), ECIsRemainder/Poly/Division/DivBlock (TV), FieldLemmas"),
     "C08": dict(scen=[("core", "maskgroups", True), ("hooked", "maskop", False)], mc=mc_join(PIPE, LEMMAS),
                 invariants="MaskExactInv (MC), same-unmasked-symbol per group + MaskOp (TV), MaskLemmas"),
-    "C09": dict(scen=[("core", "modes", True), ("core", "discovered", False), ("hooked", "bestmode", False)], mc=mc_join(PIPE, LEMMAS),
+    "C09": dict(scen=[("core", "modes", True), ("core", "discovered", False), ("hooked", "bestmode", False), ("diff", "diffbuild", False)], mc=mc_join(PIPE, LEMMAS),
                 invariants="AutoModeCompactInv (MC), AutoModeCompact/BestMode (TV), EncodeLemmas"),
-    "C10": dict(scen=[("core", "total", True), ("core", "aftermath", True), ("core", "discovered", False)], mc=PIPE, invariants="OutcomeTotal (MC), Panic/Timeout outcomes match no action (TV)"),
+    "C10": dict(scen=[("core", "total", True), ("core", "aftermath", True), ("core", "discovered", False), ("diff", "diffbuild", False)], mc=PIPE, invariants="OutcomeTotal (MC), Panic/Timeout outcomes match no action (TV)"),
     "C11": dict(scen=[("hooked", "candidates", False), ("core", "candgroups", True)], mc=mc_join(MSEL, PIPE), apalache=["MaskSelect"],
                 invariants="MaskMinimalInv (MC_Pipeline), Minimal/IndInv (MC_MaskSelect, Apalache), chosen in argmin of Penalty over recorded candidates (TV)"),
     "C15": dict(scen=[("core", "cells", True), ("core", "callbacks", True), ("hooked", "maskop", False)], mc=mc_join(PIPE, LEMMAS),
                 invariants="LabelsExact, DataLabelCount (TV), FunctionPatternsInv (MC), LayoutLemmas"),
 }
 PROPS.update({
-    "C12": dict(scen=[("core", "svg", True), ("core", "svgdiscovered", False), ("core", "callbacks", True), ("core", "sessions", True)], mc=mcq("MC_Render"),
+    "C12": dict(scen=[("core", "svg", True), ("core", "svgdiscovered", False), ("core", "callbacks", True), ("core", "sessions", True), ("diff", "diffrender", False)], mc=mcq("MC_Render"),
                 invariants="SvgStructure/SvgBackground/SvgLayerCount/SvgCells/SvgLayerColors/SvgImage over the register machine RegsAfter(program) (TV); MC_Render: render/decode round trips of the model"),
-    "C13": dict(scen=[("core", "raster", True)], mc=mcq("MC_Render"),
+    "C13": dict(scen=[("core", "raster", True), ("diff", "diffrender", False)], mc=mcq("MC_Render"),
                 invariants="RasterSide/RasterCentres/RasterUniform/RasterPng over RegsAfter(program) (TV)"),
-    "C16": dict(scen=[("core", "text", True)], mc=mcq("MC_Render"),
+    "C16": dict(scen=[("core", "text", True), ("diff", "diffrender", False)], mc=mcq("MC_Render"),
                 invariants="TextShape/TextBorder/TextModules (TV); MC_Render: decode o TextOf = id on all 0/1 matrices of a small side"),
     "C17": dict(scen=[("hooked|wasm", "wasm", True)], mc={"quick": [], "thorough": []},
                 invariants="HavocExact, TypeOK (MC_Wasm, GEN); WasmNeverTraps, WasmEqualsNative = Render predicates on NativeOf(W_After(program)) + string equality with the native output (TV)"),
-    "C18": dict(scen=[("core", "frames", True), ("core", "rasterframes", True), ("core", "sessions", True)], mc=mcq("MC_Render"),
+    "C18": dict(scen=[("core", "frames", True), ("core", "rasterframes", True), ("core", "sessions", True), ("diff", "diffrender", False)], mc=mcq("MC_Render"),
                 invariants="FrameDefault, FrameImageCentred, monotone frame side (FrameSweep), FrameOverrides (TV)"),
     "C19": dict(scen=[("core", "fileio", True), ("core", "fileconc", True)], mc={"quick": [], "thorough": []}, apalache=["FileInd"],
                 invariants="FileAllOrError (MC_FileIO, GEN -> replay), F_Run(fault, AbsOff(limit, len)) = observed return (TV); FileInd: inductive invariant for any number of chunks (Apalache)"),
@@ -64,7 +64,8 @@ BARE_SCENS = {"cells", "lengths", "structured", "nearblocks", "formats", "thresh
               "text", "aftermath", "walk", "histories"}
 # scenarios of the SVG renderer alone: also driven against the crate compiled with `svg` but without `image`
 SVGONLY_SCENS = {"svg", "frames", "callbacks", "svgdiscovered", "sessions"}
-NO_TWIN = {"birthday"}        # a sweep that only selects inputs (25 CPU-minutes in the thorough tier): driven against one build configuration
+DIFF_SCENS = {"diffbuild", "diffrender"}     # differential input selection against ref/ (flavour `diff`)
+NO_TWIN = {"birthday", "diffbuild", "diffrender"}        # a sweep that only selects inputs (25 CPU-minutes in the thorough tier): driven against one build configuration
 # scenario -> (fuzz target, seconds per tier)
 DISCOVER = {"discovered": ("qrbuild", {"quick": 25, "thorough": 300}), "candidates": ("qrbuild", {"quick": 25, "thorough": 300}), "svgdiscovered": ("svgimage", {"quick": 15, "thorough": 120})}
 GEN = {"fileio": ("FileIO.tla", "MC_FileIO.cfg", False), "wasm": ("MC_Wasm.tla", "MC_Wasm_{tier}.cfg", True),
@@ -335,7 +336,19 @@ def run_property(pid, tier, seed, replay=None, spec=None):
             mc_runs.append({"module": mod, "config": cfg, "distinct_states": g["distinct"], "states_generated": g["states"], "wall_s": round(g["wall"], 1),
                             "behaviours_exported_for_replay": len(g["replays"])})
             gen_counts[scen + variant] = len(g["replays"])
-        runner.drive(binary, scen, seed, tier, evp, extra=extra)
+        if scen in DIFF_SCENS and not replay:
+            # the sampling is a pure function of (sources of the crate, reference copy, seed, tier): reused across the checks of one tree
+            cdir = os.path.join(runner.WORK, "diffcache")
+            os.makedirs(cdir, exist_ok=True)
+            cpath = os.path.join(cdir, f"{scen}-{runner.src_hash()}-{seed}-{tier}.ndjson")
+            if os.path.exists(cpath):
+                shutil.copy(cpath, evp)
+                log(f"[drive] {scen}: sampling of the identical sources reused")
+            else:
+                runner.drive(binary, scen, seed, tier, evp, extra=extra)
+                shutil.copy(evp, cpath)
+        else:
+            runner.drive(binary, scen, seed, tier, evp, extra=extra)
         if want_ids is not None:
             keep = []
             for l in open(evp).read().split("\n"):
